@@ -25,6 +25,7 @@ type TierSpec struct {
 	StepLimit int              `json:"step_limit,omitempty"`
 	Unwind    int              `json:"unwind,omitempty"`
 	Witness   int              `json:"witness,omitempty"`
+	MaxWallS  int              `json:"max_wall_s,omitempty"`
 }
 
 type RunSpec struct {
